@@ -1093,6 +1093,47 @@ def cf_programs(big: bool) -> list[tuple[str, str, list]]:
     func.return %r : i8
   }
 }""", [[-128, -1, 0, 1, 2, 5, 12, 30]]))
+    # calls into MULTI-BLOCK callees (one interpreter scope per visited block) whose callers use pre-call values afterwards
+    out.append(("func.call-recursive-cfg", """builtin.module {
+  func.func @f(%n: i8) -> i8 {
+    %c0 = arith.constant 0 : i8
+    %c1 = arith.constant 1 : i8
+    %c = arith.cmpi sle, %n, %c0 : i8
+    cf.cond_br %c, ^base, ^rec
+  ^base:
+    func.return %c1 : i8
+  ^rec:
+    %m = arith.subi %n, %c1 : i8
+    %s = func.call @f(%m) : (i8) -> i8
+    %t = arith.muli %s, %n : i8
+    cf.br ^exit(%t : i8)
+  ^exit(%r: i8):
+    %u = arith.addi %r, %m : i8
+    func.return %u : i8
+  }
+}""", [[-128, -1, 0, 1, 2, 3, 5, 9]]))
+    out.append(("func.call-cfg-callee", """builtin.module {
+  func.func @f(%a: i8, %b: i8) -> i8 {
+    %x = arith.addi %a, %b : i8
+    %y = func.call @g(%x, %a) : (i8, i8) -> i8
+    %z = arith.subi %y, %x : i8
+    %w = func.call @g(%z, %b) : (i8, i8) -> i8
+    %v = arith.xori %w, %a : i8
+    func.return %v : i8
+  }
+  func.func @g(%p: i8, %q: i8) -> i8 {
+    %c = arith.cmpi slt, %p, %q : i8
+    cf.cond_br %c, ^l(%p : i8), ^r(%q, %p : i8, i8)
+  ^l(%x: i8):
+    %d = arith.muli %x, %q : i8
+    cf.br ^j(%d : i8)
+  ^r(%y: i8, %z: i8):
+    %e = arith.subi %y, %z : i8
+    cf.br ^j(%e : i8)
+  ^j(%o: i8):
+    func.return %o : i8
+  }
+}""", [i8s, i8s]))
     return out
 
 
